@@ -10,6 +10,10 @@ import Dmn.Lemmas.RenderAt
 import Dmn.Lemmas.CanvasFits
 import Dmn.Lemmas.CanvasSamples
 import Dmn.Lemmas.CanvasRegions
+import Dmn.Lemmas.CanvasGridPass
+import Dmn.Lemmas.CanvasGridBox
+import Dmn.Lemmas.CanvasFindRegion
+import Dmn.Lemmas.CanvasSamples5
 import Dmn.Lemmas.CanvasSamples3
 import Dmn.Lemmas.CanvasSamples4
 
@@ -503,7 +507,26 @@ FULL STATEMENT (not proved; what is missing is exactly `scan_inverts_draw`):
       (hd : d.Ok t) (hfit : Fits d L t) : scanInvertsDraw d L t = true
 
   theorem recognize_text_roundtrip (d : Decor) (L : Layout) (t : TableSpec) (hwf : t.wf = true)
-      (hd : d.Ok t) (hfit : Fits d L t) : recognizeText (drawText d L t) = .ok t
+      (hd : d.Ok t) (hfit : FitsExact d L t) : recognizeText (drawText d L t) = .ok t
+
+(`FitsExact d L t`, Lemmas/CanvasGridDefs.lean, decidable `fitsExactB`: the drawing is legal - `Fits`,
+below - every column and row has an interior, and every text, the information item name included,
+fills the interior of its region exactly.  `Fits` alone is NOT enough and the statement with `Fits`
+is false: `draw` completes a text that is narrower than its region with blanks, the scanner cuts out
+the completed text (`text_from_rect_cuts_interior`) and nothing after the scanner trims it -
+recognizer.rs and builder.rs keep the cell text as cut, builder.rs:179 only tests `trim().is_empty()`
+- so the recognised table carries the blanks: it is the table of the COMPLETED texts, which is what the
+drawing shows.  Not a defect: the property compares expressions, names, values and entries of the
+drawing, and FEEL ignores the blanks when the table is evaluated; `sample_fits_not_enough` /
+`sample_wider_not_exact` are the witness.  Of the last stage are proved, for any content / any sheet:
+what `make_grid` computes position by position (`make_grid_layer_description`), that in the full grid
+every grid cell is a closed box that `recognize_rectangle` returns (`grid_cell_is_closed_box`), and
+that the region of a grid cell is found with its rank in reading order (`region_of_grid_cell_is_rank`).
+Still open: that on the drawing of a sheet the body layer and the two passes yield the FULL grid
+(`SheetGrid`; needs `remove_information_item_region` position by position and, per sheet, a line on
+every boundary), the loop of `Canvas::plane` over it (`gridPlane` is its written-out result), that the
+text cut from a region is the key's text under `FitsExact`, and that `idsRows` / `idsCols` are the
+ranks.)
 
 where `Fits d L t` says that the drawing is a legal one: every column width and row height of
 `L` is at least 1 and `L.colW` / `L.rowH` cover the grid, every text fills the interior of its
@@ -616,7 +639,7 @@ written-out expectation in the pixel coordinates of the sheet:
 | 1 content | text → canvas content = the drawing in the text layer | PROVED for every table, layout and text (`draw_yields_drawing_lines`, `canvas_content_of_draw`) |
 | 2 marks | name, crossings, body rectangle = `expectedMarks` | PROVED for every well-formed table and layout whose drawing is a legal one (`Fits`: no box-drawing character inside a text, the information item box ends over a single line): `scan_marks_of_drawing`, from `marks_of_double_grid_sheet` (any sheet with crossing double lines) |
 | 3 regions | thin / body / grid layers; regions = box + one rectangle per cell (`expectedRegions`) | PROVED for every well-formed table and layout under `Fits`, merged input entries included: `scan_regions_of_drawing`, from `scan_regions_of_sheet` (any sheet whose regions are rectangles) and `sheet_regions_are_rectangles` |
-| 4 plane | cells from the grid layer and the regions = `planeDrawn` | assumed (`stagePlane`); `grid_rectangle_of_closed_box`; needs more than `Fits` (texts must fill their regions) |
+| 4 plane | cells from the grid layer and the regions = `planeDrawn` | assumed (`stagePlane`); proved of it for any content / sheet: `make_grid_layer_description`, `grid_cell_is_closed_box`, `region_of_grid_cell_is_rank`; needs `FitsExact` (texts must fill their regions), not just `Fits` |
 
 `recognize_text_roundtrip_plane` is the text-level round trip relative to `Fits` and stage 4 only.
 -/
@@ -977,5 +1000,135 @@ example :
     scanText "┌─┐\n└─┘".toList = .error (.notFound ['╥']) ∧
     scanText "".toList = .error (.notFound ['┌']) := by
   decide +kernel
+
+/-! ## Towards stage 4: the grid layer, its boxes, the region of a cell -/
+
+/-- **What `make_grid` computes, position by position** (canvas.rs:219-268) — on ANY rectangular
+content with the body rectangle inside it: `make_grid` succeeds, keeps the shape and the text, thin
+and body layers, and the grid layer is, at EVERY position, the body layer after the two passes
+written out as functions (`gridH`, `gridV`, Lemmas/CanvasGridDefs.lean): the horizontal pass
+rewrites exactly the rows of the body rectangle that hold a `─` (`│` becomes `├` / `┼` / `┤` by its
+column, `┤` and `├` become `┼` inside, a blank becomes `─`), the vertical pass then exactly the
+columns that hold a `│` (`─` becomes `┬` / `┼` / `┴` by its row, `┴` and `┬` become `┼` inside, a
+blank becomes `│`); rows and columns without a line are left as they are. -/
+theorem make_grid_layer_description {c : Content} {R W : Nat} (h : Shape c R W) {b : Rect}
+    (hb : b.Inside R W) :
+    ∃ c', makeGrid c b .body .grid = .ok c' ∧ Shape c' R W ∧
+      (∀ l ∈ [Layer.text, .thin, .body], ∀ y x, chOf c' l y x = chOf c l y x) ∧
+      ∀ y x, chOf c' .grid y x = gridV (fun y x => chOf c .body y x) b y x := by
+  obtain ⟨c', hc', hs, hsame, hgrid⟩ := makeGrid_pointwise h hb
+  exact ⟨c', hc', hs, hsame, hgrid⟩
+
+/-- non-vacuity: on the 3 × 3 box the grid layer is computed, and the blank in the middle stays a
+blank (the middle row holds no `─`, the middle column no `│`) -/
+example : ∃ c', makeGrid boxContent ⟨0, 0, 3, 3⟩ .body .grid = .ok c' ∧ chOf c' .grid 1 1 = 'x' := by
+  obtain ⟨c', hc', _, _, hg⟩ := make_grid_layer_description boxContent_shape
+    (b := ⟨0, 0, 3, 3⟩) ⟨by decide, by decide, by decide⟩
+  refine ⟨c', hc', ?_⟩
+  rw [hg]
+  decide
+
+/-- **One closed box per grid cell.**  On any content whose grid layer holds the full grid of a
+sheet drawn `o` lines below the top (`SheetGrid`: a junction at every vertex, `─` along every
+boundary row, `│` along every boundary column, blanks inside): every grid cell `(r, c)` is a closed
+box of the grid layer, `recognize_rectangle` from its top left vertex returns exactly the cell's
+rectangle in pixel coordinates, and on a boundary row the top left corners of the grid layer are
+exactly the top left vertices of the grid cells (so `Canvas::plane` visits each grid cell once, in
+reading order), a text line holds none. -/
+theorem grid_cell_is_closed_box {c : Content} {s : Sheet} {o : Nat}
+    (hs : Shape c (o + s.yPos s.nrows + 2) (s.xPos s.ncols + 1)) (hg : SheetGrid c s o) :
+    (∀ r cc, r < s.nrows → cc < s.ncols →
+      GridBox c .grid (s.xPos cc) (o + s.yPos r) (s.xPos (cc + 1)) (o + s.yPos (r + 1)) ∧
+      recognizeRectangle c .grid ⟨s.xPos cc, o + s.yPos r⟩ = .ok (s.cellRect o r cc)) ∧
+    (∀ br x, br ≤ s.nrows → x < s.xPos s.ncols + 1 →
+      (cornersTopLeft.contains (chOf c .grid (o + s.yPos br) x) = true ↔
+        br < s.nrows ∧ ∃ cc, cc < s.ncols ∧ x = s.xPos cc)) ∧
+    (∀ r l x, r < s.nrows → l < s.h r → x < s.xPos s.ncols + 1 →
+      cornersTopLeft.contains (chOf c .grid (o + (s.yPos r + (1 + l))) x) = false) :=
+  ⟨fun _ _ hr hc => ⟨gridBox_of_sheetGrid hg hr hc, recognizeRectangle_cell hs hg hr hc⟩,
+   fun _ _ hbr hx => sheetGrid_corner_iff hg hbr hx,
+   fun _ _ _ hr hl hx => sheetGrid_text_row hg hr hl hx⟩
+
+/-- non-vacuity: the grid layer of the 3 × 3 box `gridSample` is the full grid of the sheet of one
+cell `oneCellSheet` (Lemmas/CanvasSamples5.lean) -/
+example : SheetGrid gridSample oneCellSheet 0 := by
+  have two : ∀ n, n ≤ 1 → n = 0 ∨ n = 1 := by intro n h; omega
+  have one : ∀ n, n < 1 → n = 0 := by intro n h; omega
+  refine ⟨?_, ?_, ?_, ?_, ?_, ?_⟩
+  · intro br bc hbr hbc
+    rcases two br hbr with rfl | rfl <;> rcases two bc hbc with rfl | rfl <;> decide
+  · intro br c' i hbr hc hi
+    have hc0 := one c' hc
+    subst hc0
+    have hi0 := one i hi
+    subst hi0
+    rcases two br hbr with rfl | rfl <;> decide
+  · intro r l bc hr hl hbc
+    have hr0 := one r hr
+    subst hr0
+    have hl0 := one l hl
+    subst hl0
+    rcases two bc hbc with rfl | rfl <;> decide
+  · intro r l c' i hr hl hc hi
+    have hr0 := one r hr
+    subst hr0
+    have hl0 := one l hl
+    subst hl0
+    have hc0 := one c' hc
+    subst hc0
+    have hi0 := one i hi
+    subst hi0
+    decide
+  · intro y x hy; omega
+  · intro x _
+    have : chOf gridSample .grid (0 + oneCellSheet.yPos oneCellSheet.nrows + 1) x = ' ' := by
+      unfold chOf
+      rw [show (0 + oneCellSheet.yPos oneCellSheet.nrows + 1) = 3 from by decide]
+      rfl
+    rw [this]; decide
+
+/-- **The region of a grid cell is found with its rank** (`Canvas::plane`, canvas.rs:339-351) — for
+EVERY sheet whose regions are rectangles (`RectSheet`; the sheet of every table is one,
+`sheet_regions_are_rectangles`), with or without the information item box: among the regions the
+scanner finds on the drawing (`sheetRegions` = `expectedRegions`: the box, then one rectangle per
+region in reading order — stage 3) the first that contains the rectangle of grid cell `(r, c)` is
+the region of the cell's key, and the number it gets is the rank of the key in reading order,
+counted after the box (`Sheet.regionNo` — the number `idsOfSheet` gives it).  A region rectangle
+contains a cell rectangle exactly when the cell belongs to the region. -/
+theorem region_of_grid_cell_is_rank {s : Sheet} (hrect : RectSheet s) (name : Option Text)
+    (boxRight : Nat) {r c : Nat} (hr : r < s.nrows) (hc : c < s.ncols) :
+    findRegion (s.cellRect (boxLines name) r c) (sheetRegions s name boxRight) 0 =
+      some (s.regionNo name (s.key r c), s.regionRect (boxLines name) (s.key r c)) :=
+  findRegion_cell hrect name boxRight hr hc
+
+/-- non-vacuity: the hypothesis holds for the sheet of every table that is not a cross table -/
+example (d : Decor) (L : Layout) (t : TableSpec) (ho : t.orientation ≠ .crossTable) {r c : Nat}
+    (hr : r < (sheetOf d L t).nrows) (hc : c < (sheetOf d L t).ncols) :
+    findRegion ((sheetOf d L t).cellRect (boxLines t.infoName) r c) (expectedRegions d L t) 0 =
+      some ((sheetOf d L t).regionNo t.infoName ((sheetOf d L t).key r c),
+        (sheetOf d L t).regionRect (boxLines t.infoName) ((sheetOf d L t).key r c)) := by
+  rw [expectedRegions_eq]
+  exact region_of_grid_cell_is_rank (sheet_regions_are_rectangles d L t ho) _ _ hr hc
+
+/-- **`FitsExact` is what `autoLayout` produces, and more than `Fits`** (evaluated on the sample
+tables, Lemmas/CanvasSamples5.lean): the decidable `fitsExactB` — `fitsB`, every width and height
+at least 1, every text as many lines as its region has interior rows and each line as long as the
+interior is wide, the name's lines as long as the box is wide — holds for the layouts `autoLayout`
+computes for the small table in both orientations; in the layout one position wider the drawing is
+still legal (`fitsB`) but not exact: there `draw` completes the texts with blanks and the recogniser
+returns the completed texts (`sample_fits_not_enough`); and `FitsExact` implies `Fits` and that
+every column and row has an interior. -/
+theorem fits_exact_implies_fits (d : Decor) (L : Layout) (t : TableSpec) (h : FitsExact d L t) :
+    Fits d L t ∧ Roomy (sheetOf d L t) :=
+  ⟨fits_of_fitsB d L t (fits_of_fitsExact d L t h), roomy_of_fitsExact d L t h⟩
+
+/-- non-vacuity, and the witness that `Fits` is weaker -/
+example :
+    (let l := laidOut tinyDecor (tinyNamed .ruleAsRow); FitsExact l.1 l.2.2 l.2.1) ∧
+    (let l := laidOut tinyDecor (tinyNamed .ruleAsColumn); FitsExact l.1 l.2.2 l.2.1) ∧
+    (let l := laidOut tinyDecor (tinyNamed .ruleAsRow)
+     let L' : Layout := { l.2.2 with colW := l.2.2.colW.map (· + 1) }
+     fitsB l.1 L' l.2.1 = true ∧ fitsExactB l.1 L' l.2.1 = false) :=
+  ⟨sample_fits_exact.1, sample_fits_exact.2, sample_wider_not_exact⟩
 
 end Dmn.Recog
